@@ -62,7 +62,15 @@ def g1(F, res):
     if EW not in F.hir:
         res.error('anchor lost: emit_wasm')
         return
-    pol = Policy(effects=lambda p: not p.startswith('std::') and not p.startswith('log::'), inline=lambda p: False)
+    from flowlib import name_section_emitter
+    from heval import local_policy
+    nse = name_section_emitter(F)
+    if nse is None:
+        res.error('anchor lost: no function builds a wasm_encoder::NameSection')
+        return
+    GATED[0] = ('^' + re.escape(nse) + '$',) + GATED[0][1:]
+    # helpers split off emit_wasm are looked through; the trace vocabulary is the crate's public / other-file functions
+    pol = local_policy(F, EW, events=[re.escape(nse) + '$'], public_events=True)
     ws = Evaluator(F, pol).run_fn(EW, [sym('self')])
     names = lambda w: [e['callee'] for e in w.trace if e['kind'] == 'call']
     gated_re = [re.compile(g[0]) for g in GATED]
@@ -71,6 +79,8 @@ def g1(F, res):
         n_ok = n_bad = 0
         seen_flag = False
         for w in ws:
+            if w.outcome != 'return':
+                continue      # a world cut short (a filtered-out element of an iterator chain) says nothing about later steps
             a = atoms(w)
             present = any(re.search(rx, n) for n in names(w))
             if flag not in a:
@@ -104,6 +114,8 @@ def g1(F, res):
         return tuple(out)
     groups = {}
     for w in ws:
+        if w.outcome != 'return':
+            continue
         a = atoms(w)
         key = a.get('self.start')
         groups.setdefault(key, set()).add(rest(w))
@@ -217,10 +229,11 @@ def g3(F, res):
         res.bad('producers/replace-by-name', 'ModuleProducers::field: ' + why +
                 ' - a module already processed by another walrus version would list walrus twice')
     # add_processed_by: one call in Module::parse, not in a loop
-    body = F.mir.get(MP)
-    if body is None:
+    if MP not in F.mir:
         res.error('anchor lost: Module::parse')
         return
+    from mirinline import inline_local
+    body = inline_local(F, MP)
     c = Cfg(body)
     cs = calls_to(body, lambda n: n.endswith('ModuleProducers::add_processed_by'))
     if len(cs) == 1 and not c.in_loop(cs[0][0]):
@@ -229,15 +242,16 @@ def g3(F, res):
         res.bad('producers/processed-by-once', 'Module::parse must record walrus as processing tool exactly once per parse '
                 '(%d call sites, in loop: %s)' % (len(cs), [c.in_loop(b) for b, _ in cs]))
     # no other caller in the crate on the parse/emit paths
-    others = [p2 for p2, b in F.mir.items() if p2 != MP and calls_to(b, lambda n: n.endswith('ModuleProducers::add_processed_by'))]
+    others = [p2 for p2, b in F.mir.items() if p2 != MP and p2 not in body.get('inlined', []) and calls_to(b, lambda n: n.endswith('ModuleProducers::add_processed_by'))]
     if others:
         res.bad('producers/processed-by-elsewhere', 'add_processed_by is also called from %s' % others)
 
 
 def g4(F, res):
-    body = F.mir.get(MP)
-    if body is None:
+    if MP not in F.mir:
         return
+    from mirinline import inline_local
+    body = inline_local(F, MP)
     c = Cfg(body)
     # the callback: a call through Fn::call on a value loaded from config.on_parse
     cbs = []
@@ -277,22 +291,28 @@ def g4(F, res):
             res.ok('on_parse/after/' + need, {'dominated_by': need})
         else:
             res.bad('on_parse/after/' + need, 'the on_parse callback must run after %s' % need)
-    # .debug sections never enter customs at parse time (HIR evaluation of the custom-section arm is in R-VALIDATE);
-    # MIR: ModuleCustomSections::add is control dependent on starts_with(".debug") being false
-    adds = calls_to(body, lambda n: n.endswith('ModuleCustomSections::add'))
-    sw = calls_to(body, lambda n: n.endswith('str>::starts_with'))
+    # .debug sections never enter customs at parse time: decided on the worlds of Module::parse (helpers looked through):
+    # ModuleCustomSections::add happens only where `name.starts_with(".debug")` is known to be false
+    from heval import local_policy
     good = False
-    for ab, _ in adds:
-        for sb, st in sw:
-            tgt = st.get('target')
-            if tgt is None:
-                continue
-            term = body['blocks'][tgt]['term']
-            if term['t'] == 'SwitchInt':
-                zero = [x[1] for x in term['targets'] if x[0] == 0]
-                other = term['otherwise']
-                if zero and c.dominates(zero[0], ab) and not c.dominates(other, ab):
-                    good = True
+    adds = []
+    try:
+        pws = Evaluator(F, local_policy(F, MP, public_events=True)).run_fn(MP, [sym('wasm'), sym('config')])
+    except EvalError as e:
+        res.error('Module::parse not analysable: %s' % e)
+        pws = []
+    kept_apart = False
+    mixed = False
+    for w in pws:
+        a = atoms(w)
+        dbg = [v for k, v in a.items() if k.startswith('starts_with(') and "'.debug'" in k]
+        ad = [e for e in w.trace if e['kind'] == 'call' and e['callee'].endswith('ModuleCustomSections::add')]
+        adds += ad
+        if ad and dbg != [False]:
+            mixed = True
+        if dbg == [True] and not ad:
+            kept_apart = True
+    good = kept_apart and not mixed
     if adds and good:
         res.ok('parse/debug-sections-kept-apart', {'customs.add': 'only when the name does not start with .debug'})
     else:
